@@ -88,8 +88,8 @@ def Cov.merge (c o : Cov) : Cov :=
     let dx := c.xAvg - o.xAvg
     let dy := c.yAvg - o.yAvg
     ⟨total,
-     (c.xAvg * c.count + o.xAvg * o.count) / total,
-     (c.yAvg * c.count + o.yAvg * o.count) / total,
+     c.xAvg - dx * (o.count / total),
+     c.yAvg - dy * (o.count / total),
      c.ck + (o.ck + dx * dy * c.count / total * o.count),
      c.mkX + (o.mkX + dx * dx * c.count / total * o.count),
      c.mkY + (o.mkY + dy * dy * c.count / total * o.count)⟩
